@@ -61,11 +61,14 @@ Fixpoint check_ops (cl cn : bool) (tab : list (N * N)) (k : nat) (i : index) (os
    as the pruning path evaluates a regex atom). *)
 Definition index_match (cr : bool) (r : re) (v : option (list N)) : bool :=
   if cr then current_match r v else repaired_match r v.
-Definition model_tab (cr : bool) (pats : list (N * re)) (strs : list (N * list N)) : list (N * N) :=
+(* a pattern of a case: number, its tree, and the tree of the filter's value text after Init (what doPrune compiles; today
+   the literal text re-read as an expression when the pattern was reduced to a literal, else the pattern itself) *)
+Definition cpat := (N * re * re)%type.
+Definition model_tab (cr : bool) (pats : list cpat) (strs : list (N * list N)) : list (N * N) :=
   flat_map (fun p =>
     flat_map (fun v =>
-      (if index_match cr (snd p) (str_of strs v) then [(2 * fst p, v)] else []) ++
-      (if repaired_match (snd p) (str_of strs v) then [(2 * fst p + 1, v)] else []))
+      (if index_match cr (snd (fst p)) (str_of strs v) then [(2 * fst (fst p), v)] else []) ++
+      (if repaired_match (snd p) (str_of strs v) then [(2 * fst (fst p) + 1, v)] else []))
       (0 :: map fst strs)) pats.
 
 Definition arow := (N * N * bool * bool)%type.     (* pattern number, string id, Go regexp, index *)
@@ -81,10 +84,10 @@ Fixpoint check_rows (cr : bool) (pats : list (N * re)) (strs : list (N * list N)
   end.
 
 (* initial generator value, pattern trees, strings, measured rows, ops *)
-Definition ccase := (N * list (N * re) * list (N * list N) * list arow * list cop)%type.
+Definition ccase := (N * list cpat * list (N * list N) * list arow * list cop)%type.
 Definition check_case (cl cn cr : bool) (c : ccase) : list (nat * N) :=
   let '(base, pats, strs, rows, ops) := c in
-  check_ops cl cn (model_tab cr pats strs) 0 (empty_index base) ops ++ check_rows cr pats strs 1000 rows.
+  check_ops cl cn (model_tab cr pats strs) 0 (empty_index base) ops ++ check_rows cr (map fst pats) strs 1000 rows.
 
 Fixpoint mismatches_from (cl cn cr : bool) (k : nat) (cs : list ccase) : list (nat * nat * N) :=
   match cs with
@@ -96,15 +99,17 @@ Definition mismatches (cl cn cr : bool) := mismatches_from cl cn cr 0.
 (* ---- the pattern x value matrix (deterministic part of the tie): every pattern of the alphabet with the results of the
    stages of the real translation and the rows measured on the real index *)
 Definition mrow := (option (list N) * bool * bool)%type.     (* value (None = absent tag), Go regexp, index *)
-Record mpat := mkMP { mp_ast : re; mp_final : re; mp_prefix : list N; mp_has_sfx : bool; mp_sfx : re;
-                      mp_orv : list (list N); mp_rows : list mrow }.
+Record mpat := mkMP { mp_src : list N; mp_vtext : list N; mp_ast : re; mp_final : re; mp_prefix : list N; mp_has_sfx : bool;
+                      mp_sfx : re; mp_orv : list (list N); mp_rows : list mrow }.
 Definition lsubset (a b : list (list N)) : bool := forallb (fun x => existsb (list_eqb x) b) a.
-(* stage codes (diagnostics): 20 simplify loop, 21 literal prefix / presence of a rest, 22 the rest's tree, 23 or-values.
+(* stage codes (diagnostics): 20 simplify loop, 21 literal prefix / presence of a rest, 22 the rest's tree, 23 or-values,
+   24 the filter's value text after Init (cache_literal).
    row codes: 9 the model's matcher differs from Go regexp, 10 the index differs from the model of the translation *)
 Definition check_stages (p : mpat) : list N :=
   let s := simplify (mp_ast p) in
   let '(pre, sfx) := extract_prefix s in
   (if re_eqb s (mp_final p) then [] else [20]) ++
+  (if list_eqb (match cache_literal (mp_ast p) with Some l => l | None => mp_src p end) (mp_vtext p) then [] else [24]) ++
   (if list_eqb pre (mp_prefix p) && Bool.eqb (match sfx with Some _ => true | None => false end) (mp_has_sfx p) then [] else [21]) ++
   match sfx with
   | Some x => (if negb (mp_has_sfx p) || re_eqb x (mp_sfx p) then [] else [22]) ++
